@@ -1103,9 +1103,10 @@ fn schedule_part(run: &Run) -> Value {
             };
             let mut outcomes: Vec<u64> = vec![];
             let st = sched::explore(&cfg, Some(bound), 20_000, body, |r, tr| {
-                if let Some(Abort::Diverged(m)) = &tr.abort {
-                    eprintln!("MACHINERY ERROR: schedule replay diverged on {}: {m}", cx.id);
-                    std::process::exit(3);
+                if tr.diverged.is_some() {
+                    // pivot choice depends on per-instance hash seeds: the prefix could not be followed;
+                    // the execution that happened instead is still judged
+                    run.add("sched_prefixes_not_replayable", 1);
                 }
                 let how = format!("reduce under schedule {:?} (W=2)", tr.choices());
                 match (&tr.abort, r) {
@@ -1158,7 +1159,8 @@ fn schedule_part(run: &Run) -> Value {
     }
     let g = tot.into_inner().unwrap();
     json!({"complexes": g.3, "executions": g.0, "lock_points_passed": g.1, "scheduled_parallel_calls": g.2,
-           "complexes_with_more_than_one_distinct_result": g.4, "workers": 2, "preemption_bound": bound})
+           "complexes_with_more_than_one_distinct_result": g.4, "workers": 2, "preemption_bound": bound,
+           "prefixes_not_replayable_because_of_hash_order": run.get("sched_prefixes_not_replayable")})
 }
 
 extern "C" {
